@@ -22,11 +22,11 @@ use std::sync::mpsc;
 use std::sync::{Arc, Mutex};
 use zipora::blob_store::cached_store::CacheWriteStrategy;
 use zipora::blob_store::{BlobStore, CachedBlobStore, MemoryBlobStore};
-use zipora::cache::{CacheBuffer, LruPageCache, PageCacheConfig, SingleLruPageCache, PAGE_SIZE};
+use zipora::cache::{BufferPool, CacheBuffer, LruPageCache, PageCacheConfig, SingleLruPageCache, PAGE_SIZE};
 use zipora::containers::specialized::{
     ConcurrentLruMap, ConcurrentLruMapConfig, EvictionCallback, LoadBalancingStrategy, LruMap, LruMapConfig,
 };
-use zipora::fsa::cache::{CacheStrategy, FsaCache, FsaCacheConfig};
+use zipora::fsa::cache::{CacheStrategy, CachedState, FsaCache, FsaCacheConfig, ZeroPathData};
 use zv::*;
 
 // ================================================================ LRU maps
@@ -70,6 +70,17 @@ trait LruSubj {
     fn obs(&mut self) -> Option<Obs> {
         None
     }
+    fn is_empty(&mut self) -> bool;
+    /// ConcurrentLruMap only: keys(), for_each_shard (does shard contain k? its len), rebalance()
+    fn keys(&mut self) -> Option<Vec<u32>> {
+        None
+    }
+    fn for_each(&mut self, _k: u32) -> Option<Result<(usize, Vec<usize>), ()>> {
+        None
+    }
+    fn rebalance(&mut self) -> Option<bool> {
+        None
+    }
 }
 
 struct Single<E: EvictionCallback<u32, u32>> {
@@ -101,6 +112,9 @@ impl<E: EvictionCallback<u32, u32>> LruSubj for Single<E> {
     fn callbacks(&mut self) -> Vec<(u32, u32)> {
         self.rec.as_ref().map(|r| r.take()).unwrap_or_default()
     }
+    fn is_empty(&mut self) -> bool {
+        self.m.is_empty()
+    }
 }
 
 struct StrSingle {
@@ -131,6 +145,9 @@ impl LruSubj for StrSingle {
     }
     fn callbacks(&mut self) -> Vec<(u32, u32)> {
         self.rec.take()
+    }
+    fn is_empty(&mut self) -> bool {
+        self.m.is_empty()
     }
 }
 
@@ -211,6 +228,26 @@ impl LruSubj for Conc {
     fn callbacks(&mut self) -> Vec<(u32, u32)> {
         self.rec.take()
     }
+    fn is_empty(&mut self) -> bool {
+        self.m.is_empty()
+    }
+    fn keys(&mut self) -> Option<Vec<u32>> {
+        Some(self.m.keys())
+    }
+    fn for_each(&mut self, k: u32) -> Option<Result<(usize, Vec<usize>), ()>> {
+        // the closure runs once per shard (on a thread of its own): it reports what it saw, nothing else
+        let seen: Arc<Mutex<Vec<(bool, usize)>>> = Arc::new(Mutex::new(vec![]));
+        let s2 = Arc::clone(&seen);
+        let r = self.m.for_each_shard(move |sh| {
+            s2.lock().unwrap_or_else(|e| e.into_inner()).push((sh.contains_key(&k), sh.len()));
+            Ok(())
+        });
+        let v = seen.lock().unwrap_or_else(|e| e.into_inner()).clone();
+        Some(r.map(|_| (v.iter().filter(|x| x.0).count(), v.iter().map(|x| x.1).collect())).map_err(|_| ()))
+    }
+    fn rebalance(&mut self) -> Option<bool> {
+        Some(self.m.rebalance().is_ok())
+    }
     fn obs(&mut self) -> Option<Obs> {
         let n = self.m.shard_count();
         let sz: Vec<u64> = self.m.shard_sizes().iter().map(|&x| x as u64).collect();
@@ -250,6 +287,9 @@ fn lru_subjects() -> Vec<String> {
     v.push("clru:hash_4_mem".into());
     v.push("clru:hash_2_perf".into());
     v.push("clru:aff_4_2t".into());
+    v.push("clru:newodd_2".into()); // new(total, shards) with total not divisible by the shard count
+    v.push("clru:presetperf_0".into()); // ConcurrentLruMapConfig::performance_optimized(): 2 x cpus shards
+    v.push("clru:presetmem_0".into()); // ConcurrentLruMapConfig::memory_optimized(): 4 shards, no statistics
     v
 }
 
@@ -285,8 +325,16 @@ fn make_lru(name: &str, cap: usize, seed: u64) -> Option<(Box<dyn LruSubj>, LruM
             let parts: Vec<&str> = var.split('_').collect();
             let n: usize = parts.get(1)?.parse().ok()?;
             let extra = parts.get(2).copied().unwrap_or("");
-            if parts[0] == "new" {
-                let m = ConcurrentLruMap::with_eviction_callback(cap * n, n, rec.clone()).ok()?;
+            if parts[0] == "presetperf" || parts[0] == "presetmem" {
+                let mut cfg = if parts[0] == "presetperf" { ConcurrentLruMapConfig::performance_optimized() } else { ConcurrentLruMapConfig::memory_optimized() };
+                cfg.base_config.capacity = cap;
+                let (n, stats) = (cfg.shard_count, cfg.base_config.enable_statistics);
+                let m = ConcurrentLruMap::with_config_and_callback(cfg, rec.clone()).ok()?;
+                return Some((Box::new(Conc { m: Arc::new(m), rec, stats, workers: None }), LruMeta { shards: n, has_cb: true, strategy: "hash", stats, threads: 1 }));
+            }
+            if parts[0] == "new" || parts[0] == "newodd" {
+                let total = if parts[0] == "new" { cap * n } else { cap * n + n - 1 };
+                let m = ConcurrentLruMap::with_eviction_callback(total, n, rec.clone()).ok()?;
                 return Some((Box::new(Conc { m: Arc::new(m), rec, stats: true, workers: None }), LruMeta { shards: n, has_cb: true, strategy: "hash", stats: true, threads: 1 }));
             }
             let (lb, sname) = match parts[0] {
@@ -326,6 +374,20 @@ fn exec_lru(s: &mut Box<dyn LruSubj>, op: &str, k: u32, v: u32, universe: &[u32]
             "len" => json!({"op":"len","r":s.len()}),
             "capacity" => json!({"op":"capacity","r":s.capacity()}),
             "clear" => json!({"op":"clear","ok":s.clear()}),
+            "is_empty" => json!({"op":"is_empty","r":s.is_empty()}),
+            "keys" => match s.keys() {
+                Some(ks) => json!({"op":"keys","r":ks}),
+                None => json!({"op":"is_empty","r":s.is_empty()}),
+            },
+            "for_each_shard" => match s.for_each(k) {
+                Some(Ok((hits, lens))) => json!({"op":"for_each_shard","k":k,"ok":true,"hits":hits,"lens":lens}),
+                Some(Err(())) => json!({"op":"for_each_shard","k":k,"ok":false,"hits":0,"lens":[]}),
+                None => json!({"op":"is_empty","r":s.is_empty()}),
+            },
+            "rebalance" => match s.rebalance() {
+                Some(ok) => json!({"op":"rebalance","ok":ok}),
+                None => json!({"op":"is_empty","r":s.is_empty()}),
+            },
             _ => {
                 // probe: contains_key of every key of the universe (no recency change) and len
                 let c: Vec<Value> = universe.iter().map(|&x| json!([x, s.contains(x)])).collect();
@@ -388,7 +450,14 @@ fn drive_lru(a: &Args, tr: &mut Tracer, per_subject: &mut serde_json::Map<String
     let (runs, steps) = if a.thorough() { (8, 120) } else { (3, 45) };
     for name in lru_subjects().iter().filter(|s| a.wants(s)) {
         let mut c = Counts::default();
-        for cap in 1..=4usize {
+        // capacities 1..4 force an eviction on nearly every put; one larger capacity (long recency lists,
+        // many nodes recycled through the free list) for one plain and one sharded subject
+        let mut caps: Vec<usize> = vec![1, 2, 3, 4];
+        if name == "lru:cb" || name == "clru:hash_4" {
+            caps.push(if name == "lru:cb" { 50 } else { 13 });
+        }
+        for cap in caps {
+            let (runs, steps) = if cap > 4 { (1 + runs / 6, steps * 8) } else { (runs, steps) };
             for run in 0..runs {
                 let mut rng = rng0.derive(&format!("{name}/{cap}/{run}"));
                 let made = guard(|| make_lru(name, cap, a.seed ^ run as u64));
@@ -401,8 +470,11 @@ fn drive_lru(a: &Args, tr: &mut Tracer, per_subject: &mut serde_json::Map<String
                         break; // one record of the refusal per capacity is enough
                     }
                 };
+                if meta.shards > 8 && (cap > 2 || run > 0) {
+                    continue; // the 2 x cpus shards preset: two small runs are enough
+                }
                 // enough keys to overflow every shard, few enough to revisit keys often
-                let uni = (meta.shards * cap + 2 + run % 3) as u32;
+                let uni = (meta.shards * cap + 2 + run % 3 + cap / 4) as u32;
                 let universe: Vec<u32> = (0..uni).collect();
                 lru_reset(tr, name, cap, Some(&meta), json!({"seed": a.seed, "universe": uni}));
                 c.runs += 1;
@@ -416,8 +488,15 @@ fn drive_lru(a: &Args, tr: &mut Tracer, per_subject: &mut serde_json::Map<String
                         45..=66 => "get",
                         67..=75 => "remove",
                         76..=83 => "contains",
-                        84..=90 => "len",
-                        91..=92 => "clear",
+                        84..=87 => "len",
+                        88 => "is_empty",
+                        // keys() is a recorded placeholder (C17-KF5): asked of two subjects only, so that the other
+                        // sharded subjects are judged by the strict contract alone
+                        89 if name == "clru:hash_2" || name == "clru:presetmem_0" => "keys",
+                        89 => "is_empty",
+                        90 => "for_each_shard",
+                        91 => "rebalance",
+                        92..=93 => "clear",
                         _ => "probe",
                     };
                     ops.push((op, k, v));
@@ -457,7 +536,7 @@ fn drive_lru(a: &Args, tr: &mut Tracer, per_subject: &mut serde_json::Map<String
 // ================================================================ FsaCache (bounded id-keyed store)
 
 fn fsa_subjects() -> Vec<String> {
-    ["fsa:bfs", "fsa:dfs", "fsa:cf", "fsa:small_preset"].iter().map(|s| s.to_string()).collect()
+    ["fsa:bfs", "fsa:dfs", "fsa:cf", "fsa:small_preset", "fsa:large_preset", "fsa:memeff_preset"].iter().map(|s| s.to_string()).collect()
 }
 
 fn drive_fsa(a: &Args, tr: &mut Tracer, per_subject: &mut serde_json::Map<String, Value>) {
@@ -466,7 +545,12 @@ fn drive_fsa(a: &Args, tr: &mut Tracer, per_subject: &mut serde_json::Map<String
     for name in fsa_subjects().iter().filter(|s| a.wants(s)) {
         let var = name.split_once(':').map(|x| x.1).unwrap_or("");
         let mut c = Counts::default();
-        let maxes: Vec<usize> = if var == "small_preset" { vec![10_000] } else { vec![1, 2, 3, 12, 25] };
+        let maxes: Vec<usize> = match var {
+            "small_preset" => vec![10_000],
+            "large_preset" => vec![10_000_000],
+            "memeff_preset" => vec![100_000],
+            _ => vec![1, 2, 3, 12, 25],
+        };
         for &max in &maxes {
             for run in 0..runs {
                 let mut rng = rng0.derive(&format!("{name}/{max}/{run}"));
@@ -474,6 +558,8 @@ fn drive_fsa(a: &Args, tr: &mut Tracer, per_subject: &mut serde_json::Map<String
                     "bfs" => FsaCacheConfig { max_states: max, strategy: CacheStrategy::BreadthFirst, ..Default::default() },
                     "dfs" => FsaCacheConfig { max_states: max, strategy: CacheStrategy::DepthFirst, ..Default::default() },
                     "cf" => FsaCacheConfig { max_states: max, strategy: CacheStrategy::CacheFriendly, ..Default::default() },
+                    "large_preset" => FsaCacheConfig::large(),
+                    "memeff_preset" => FsaCacheConfig::memory_efficient(),
                     _ => FsaCacheConfig::small(),
                 };
                 let mut cache = match guard(|| FsaCache::with_config(cfg)) {
@@ -489,6 +575,7 @@ fn drive_fsa(a: &Args, tr: &mut Tracer, per_subject: &mut serde_json::Map<String
                 let mut dead = false;
                 for _ in 0..steps {
                     let x = rng.below(100);
+                    let zp_turn = rng.chance(1, 4); // a quarter of the steps work on zero paths
                     let r = guard(|| -> Value {
                         let live = |cache: &FsaCache, issued: &[u32]| -> Value {
                             Value::Array(issued.iter().filter_map(|&id| cache.get_state(id).map(|s| json!([id, s.child_base, s.parent(), s.is_terminal()]))).collect())
@@ -500,7 +587,30 @@ fn drive_fsa(a: &Args, tr: &mut Tracer, per_subject: &mut serde_json::Map<String
                                 *rng.pick(issued)
                             }
                         };
-                        match x {
+                        match x + 100 * (zp_turn as u64) {
+                            100..=149 => {
+                                // zero-path data of a state: stored for a live id only, dies with the state
+                                let id = some_id(&mut rng, &issued);
+                                let nseg = rng.below(4) as usize;
+                                let segs: Vec<Vec<u8>> = (0..nseg).map(|_| { let n = *rng.pick(&[0usize, 1, 3, 17, 255]); rng.bytes(n) }).collect();
+                                let mut z = ZeroPathData::new();
+                                let mut built = true;
+                                for sg in &segs {
+                                    built &= z.add_segment(sg).is_ok();
+                                }
+                                if !built {
+                                    return json!({"op":"add_zero_path","id":id,"segs":[],"ok":false});
+                                }
+                                let ok = cache.add_zero_path(id, z).is_ok();
+                                json!({"op":"add_zero_path","id":id,"segs":segs.iter().map(|x| bytes_json(x)).collect::<Vec<_>>(),"ok":ok})
+                            }
+                            150..=199 => {
+                                let id = some_id(&mut rng, &issued);
+                                match cache.get_zero_path(id) {
+                                    Some(z) => json!({"op":"get_zero_path","id":id,"r":[bytes_json(&z.get_full_path())],"total":z.total_length}),
+                                    None => json!({"op":"get_zero_path","id":id,"r":[],"total":0}),
+                                }
+                            }
                             0..=54 => {
                                 let (p, cb, t) = (rng.below(1 << 24) as u32, rng.below(1 << 30) as u32, rng.chance(1, 3));
                                 match cache.cache_state(p, cb, t) {
@@ -522,15 +632,29 @@ fn drive_fsa(a: &Args, tr: &mut Tracer, per_subject: &mut serde_json::Map<String
                                 let id = some_id(&mut rng, &issued);
                                 json!({"op":"remove_state","id":id,"r":cache.remove_state(id)})
                             }
-                            88..=92 => json!({"op":"is_full","r":cache.is_full()}),
-                            93..=94 => {
+                            88..=89 => json!({"op":"is_full","r":cache.is_full()}),
+                            90 => {
                                 cache.clear();
                                 json!({"op":"fsa_clear"})
                             }
-                            _ => {
-                                let g: Vec<Value> = issued.iter().map(|&id| json!([id, opt(cache.get_state(id).map(|s| json!([s.child_base, s.parent(), s.is_terminal()])))])).collect();
+                            91..=92 => {
+                                // the value helpers of CachedState: pack, read back, mark free / used
+                                let (p, cb, t, f) = (rng.below(1 << 24) as u32, rng.below(1 << 31) as u32, rng.chance(1, 2), rng.chance(1, 2));
+                                let st = CachedState::new(cb, p, t, f);
+                                let show = |s: &CachedState| json!([s.child_base, s.parent(), s.is_terminal(), s.is_free()]);
+                                let got = show(&st);
+                                let mut m = st;
+                                m.mark_free();
+                                let marked = show(&m);
+                                m.mark_used();
+                                json!({"op":"cstate","cb":cb,"p":p,"t":t,"f":f,"got":got,"marked":marked,"unmarked":show(&m)})
+                            }
+                            93..=99 => {
+                                let g: Vec<Value> = issued.iter().map(|&id| json!([id, opt(cache.get_state(id).map(|s| json!([s.child_base, s.parent(), s.is_terminal()]))),
+                                    opt(cache.get_zero_path(id).map(|z| bytes_json(&z.get_full_path())))])).collect();
                                 json!({"op":"fsa_probe","g":g})
                             }
+                            _ => json!({"op":"is_full","r":cache.is_full()}),
                         }
                     });
                     let e = match r {
@@ -587,6 +711,20 @@ impl Pc {
         match self {
             Pc::Lru(c) => c.open_file(p).map_err(|_| ()),
             Pc::Single(c, _) => c.open_file(p).map_err(|_| ()),
+        }
+    }
+    /// register_file(fd): fd = -1 asks for a virtual file id (no bytes behind it), a real descriptor is refused
+    fn register(&self, fd: i32) -> Result<u32, ()> {
+        match self {
+            Pc::Lru(c) => c.register_file(fd).map_err(|_| ()),
+            Pc::Single(c, _) => c.register_file(fd).map_err(|_| ()),
+        }
+    }
+    /// read_batch with several requests at once (LruPageCache only)
+    fn read_multi(&self, reqs: Vec<(u32, u64, usize)>) -> Option<Result<Vec<Vec<u8>>, ()>> {
+        match self {
+            Pc::Lru(c) => Some(c.read_batch(reqs).map(|v| v.iter().map(|b| b.data().to_vec()).collect()).map_err(|_| ())),
+            Pc::Single(..) => None,
         }
     }
     /// returns the bytes of the answer and, when the API hands out a CacheBuffer, that buffer (the
@@ -655,8 +793,9 @@ impl Pc {
     }
 }
 
-fn make_pc(var: &str, cap_pages: usize) -> Option<Pc> {
-    let cap = cap_pages * PAGE_SIZE;
+fn make_pc(var: &str, cap_pages: usize, extra_bytes: usize) -> Option<Pc> {
+    // a capacity that is not a multiple of the page size holds floor(capacity / PAGE_SIZE) pages
+    let cap = cap_pages * PAGE_SIZE + extra_bytes;
     let cfg = match var {
         "lru_perf" => PageCacheConfig::performance_optimized().with_huge_pages(false),
         "lru_mem" => PageCacheConfig::memory_optimized(),
@@ -685,7 +824,7 @@ fn drive_pc(a: &Args, tr: &mut Tracer, per_subject: &mut serde_json::Map<String,
     let dir = tmp_dir();
     let (runs, steps) = if a.thorough() { (8, 120) } else { (2, 60) };
     let p = PAGE_SIZE as u64;
-    let sizes: [u64; 7] = [6 * p, 6 * p + 100, 5 * p + 1, 3 * p, 100, p, 2 * p - 1];
+    let sizes: [u64; 9] = [6 * p, 6 * p + 100, 5 * p + 1, 3 * p, 100, p, 2 * p - 1, 0, 1];
     for name in pc_subjects().iter().filter(|s| a.wants(s)) {
         let var = name.split_once(':').map(|x| x.1).unwrap_or("");
         let api = match var {
@@ -698,7 +837,7 @@ fn drive_pc(a: &Args, tr: &mut Tracer, per_subject: &mut serde_json::Map<String,
         for cap_pages in 1..=3usize {
             for run in 0..runs {
                 let mut rng = rng0.derive(&format!("{name}/{cap_pages}/{run}"));
-                let mut pc = match guard(|| make_pc(var, cap_pages)) {
+                let mut pc = match guard(|| make_pc(var, cap_pages, if run % 2 == 1 { 100 } else { 0 })) {
                     Ok(Some(x)) => x,
                     _ => {
                         c.not_constructed += 1;
@@ -723,10 +862,22 @@ fn drive_pc(a: &Args, tr: &mut Tracer, per_subject: &mut serde_json::Map<String,
                     std::fs::write(&path, &data).expect("write file");
                     match guard(|| pc.open(&path)) {
                         Ok(Ok(fid)) => {
-                            tr.ev(json!({"op":"file","f":files.len() + 1,"fid":fid,"size":size,"gen":gen,"ok":true}));
+                            tr.ev(json!({"op":"file","f":files.len() + 1,"fid":fid,"size":size,"gen":gen,"ok":true,"virtual":false}));
                             files.push(HFile { fid, path, size });
                         }
-                        _ => tr.ev(json!({"op":"file","f":0,"fid":0,"size":size,"gen":gen,"ok":false})),
+                        _ => tr.ev(json!({"op":"file","f":0,"fid":0,"size":size,"gen":gen,"ok":false,"virtual":false})),
+                    }
+                    c.events += 1;
+                }
+                // a virtual file id (register_file(-1), what CachedBlobStore uses): no bytes behind it, but an id of its
+                // own; a real descriptor is refused by this implementation
+                for fd in [-1, 7] {
+                    match guard(|| pc.register(fd)) {
+                        Ok(Ok(fid)) => {
+                            tr.ev(json!({"op":"file","f":files.len() + 1,"fid":fid,"size":0,"gen":0,"ok":true,"virtual":true}));
+                            files.push(HFile { fid, path: PathBuf::new(), size: 0 });
+                        }
+                        _ => tr.ev(json!({"op":"file","f":0,"fid":0,"size":0,"gen":0,"ok":false,"virtual":true})),
                     }
                     c.events += 1;
                 }
@@ -737,7 +888,7 @@ fn drive_pc(a: &Args, tr: &mut Tracer, per_subject: &mut serde_json::Map<String,
                     let fi = rng.below(files.len() as u64) as usize;
                     let (fid, size) = (files[fi].fid, files[fi].size);
                     let f = fi + 1;
-                    let x = if step >= steps { [96, 97, 0][step - steps] } else { rng.below(96) };
+                    let x = if step >= steps { [200, 201, 0][step - steps] } else { rng.below(100) };
                     let offs = [0, 1, p - 1, p, p + 1, 2 * p - 3, 3 * p - 1, size.saturating_sub(5), size.saturating_sub(1), size, size + 10, rng.below(size + 1), rng.below(size + 1)];
                     let r = guard(|| -> Vec<Value> {
                         match x {
@@ -831,7 +982,41 @@ fn drive_pc(a: &Args, tr: &mut Tracer, per_subject: &mut serde_json::Map<String,
                                 Some(n) => vec![json!({"op":"size","r":n})],
                                 None => vec![],
                             },
-                            96 => vec![json!({"op":"close_file","f":f,"ok":pc.close_file(fid)})],
+                            96 => {
+                                // an offset whose page number does not fit the 32-bit page id: far beyond every file
+                                let far: u64 = (1u64 << 44) + *rng.pick(&[0u64, 5, p, p + 7, 3 * p - 1]);
+                                match pc.read(api, fid, far, 16) {
+                                    Ok((d, _)) => vec![json!({"op":"read_far","api":api,"f":f,"offl":limbs(far),"len":16,"ok":true,"r":bytes_json(&d)})],
+                                    Err(()) => vec![json!({"op":"read_far","api":api,"f":f,"offl":limbs(far),"len":16,"ok":false,"r":[]})],
+                                }
+                            }
+                            97 => {
+                                let far: u64 = (1u64 << 44) + rng.below(4) * p;
+                                vec![json!({"op":"invalidate_far","f":f,"offl":limbs(far),"len":10,"ok":pc.invalidate_range(fid, far, 10)})]
+                            }
+                            98 => {
+                                // read_batch with three requests over the files: logged as three reads in request order
+                                let reqs: Vec<(usize, u64, usize)> = (0..3).map(|_| { let g = rng.below(files.len() as u64) as usize; (g, *rng.pick(&offs) % (files[g].size + 3), *rng.pick(&[1usize, 9, 64, 130])) }).collect();
+                                match pc.read_multi(reqs.iter().map(|&(g, o, l)| (files[g].fid, o, l)).collect()) {
+                                    Some(Ok(rs)) => reqs.iter().zip(rs.iter()).map(|(&(g, o, l), d)| json!({"op":"read","api":"batch3","f":g + 1,"off":o,"len":l,"ok":true,"r":bytes_json(d)})).collect(),
+                                    Some(Err(())) => vec![json!({"op":"read","api":"batch3","f":f,"off":0,"len":0,"ok":false,"r":[]})],
+                                    None => vec![],
+                                }
+                            }
+                            99 => {
+                                // the whole file in one read (every page, more than the cache holds)
+                                if size as usize + 64 > budget || size == 0 {
+                                    return vec![];
+                                }
+                                match pc.read(api, fid, 0, size as usize + 5) {
+                                    Ok((d, _)) => {
+                                        budget = budget.saturating_sub(d.len());
+                                        vec![json!({"op":"read","api":api,"f":f,"off":0,"len":size + 5,"ok":true,"r":bytes_json(&d)})]
+                                    }
+                                    Err(()) => vec![json!({"op":"read","api":api,"f":f,"off":0,"len":size + 5,"ok":false,"r":[]})],
+                                }
+                            }
+                            200 => vec![json!({"op":"close_file","f":f,"ok":pc.close_file(fid)})],
                             _ => match pc.read(api, fid, 0, 16) {
                                 Ok((d, _)) => vec![json!({"op":"read","api":api,"f":f,"off":0,"len":16,"ok":true,"r":bytes_json(&d)})],
                                 Err(()) => vec![json!({"op":"read","api":api,"f":f,"off":0,"len":16,"ok":false,"r":[]})],
@@ -888,7 +1073,7 @@ fn drive_pc(a: &Args, tr: &mut Tracer, per_subject: &mut serde_json::Map<String,
 // ================================================================ cached blob store
 
 fn cs_subjects() -> Vec<String> {
-    ["cbs:through", "cbs:back", "cbs:around", "cbs:shared_cache"].iter().map(|s| s.to_string()).collect()
+    ["cbs:through", "cbs:back", "cbs:around", "cbs:shared_cache", "cbs:shared_back", "cbs:shared_around"].iter().map(|s| s.to_string()).collect()
 }
 
 fn drive_cs(a: &Args, tr: &mut Tracer, per_subject: &mut serde_json::Map<String, Value>) {
@@ -905,6 +1090,8 @@ fn drive_cs(a: &Args, tr: &mut Tracer, per_subject: &mut serde_json::Map<String,
                 "through" => CachedBlobStore::with_write_strategy(MemoryBlobStore::new(), cfg, CacheWriteStrategy::WriteThrough).ok(),
                 "back" => CachedBlobStore::with_write_strategy(MemoryBlobStore::new(), cfg, CacheWriteStrategy::WriteBack).ok(),
                 "around" => CachedBlobStore::with_write_strategy(MemoryBlobStore::new(), cfg, CacheWriteStrategy::WriteAround).ok(),
+                "shared_back" => LruPageCache::new(cfg).ok().and_then(|pc| CachedBlobStore::with_cache_and_strategy(MemoryBlobStore::new(), Arc::new(pc), CacheWriteStrategy::WriteBack).ok()),
+                "shared_around" => LruPageCache::new(cfg).ok().and_then(|pc| CachedBlobStore::with_cache_and_strategy(MemoryBlobStore::new(), Arc::new(pc), CacheWriteStrategy::WriteAround).ok()),
                 _ => LruPageCache::new(cfg).ok().and_then(|pc| CachedBlobStore::with_cache(MemoryBlobStore::new(), Arc::new(pc)).ok()),
             });
             let mut s = match made {
@@ -929,6 +1116,32 @@ fn drive_cs(a: &Args, tr: &mut Tracer, per_subject: &mut serde_json::Map<String,
                 };
                 let r = guard(|| -> Value {
                     match x {
+                        30..=34 => {
+                            // a record written to the wrapped store behind the cache's back (inner_mut)
+                            let n = *rng.pick(&[0usize, 7, 300, PAGE_SIZE + 9]);
+                            let data = rng.bytes(n);
+                            match s.inner_mut().put(&data) {
+                                Ok(id) => {
+                                    if !ids.contains(&id) {
+                                        ids.push(id);
+                                    }
+                                    json!({"op":"put","via":"inner","d":digest(&data),"ok":true,"id":id})
+                                }
+                                Err(_) => json!({"op":"put","via":"inner","d":digest(&data),"ok":false,"id":0}),
+                            }
+                        }
+                        67..=69 => {
+                            // a record removed from the wrapped store behind the cache's back: the cached store must not
+                            // keep serving it
+                            let id = pick_id(&mut rng, &ids);
+                            json!({"op":"remove","via":"inner","id":id,"ok":s.inner_mut().remove(id).is_ok()})
+                        }
+                        92..=93 => json!({"op":"is_empty","r":s.is_empty(),"ir":s.inner().is_empty()}),
+                        96 => {
+                            let st = *rng.pick(&[CacheWriteStrategy::WriteThrough, CacheWriteStrategy::WriteBack, CacheWriteStrategy::WriteAround]);
+                            s.set_write_strategy(st);
+                            json!({"op":"set_write_strategy","r":format!("{:?}", s.write_strategy()),"want":format!("{:?}", st)})
+                        }
                         0..=34 => {
                             let rn = rng.below(600) as usize;
                             let n = *rng.pick(&[0usize, 1, 10, 300, PAGE_SIZE - 1, PAGE_SIZE, PAGE_SIZE + 1, 9000, rn]);
@@ -1010,6 +1223,300 @@ fn drive_cs(a: &Args, tr: &mut Tracer, per_subject: &mut serde_json::Map<String,
     }
 }
 
+// ================================================================ CacheBuffer / BufferPool
+
+/// the observations made on a buffer right after a call
+fn buf_obs(op: &str, b: usize, d: Option<&[u8]>, buf: &CacheBuffer) -> Value {
+    let mut e = json!({"op":op,"b":b,"data":bytes_json(buf.data()),"len":buf.len(),"empty":buf.is_empty(),"has":buf.has_data()});
+    if let Some(d) = d {
+        e["d"] = bytes_json(d);
+    }
+    e
+}
+
+/// CacheBuffer is what reads are delivered in: from_data / copy_from_slice / extend_from_slice / clear /
+/// reserve / moves of the object, and recycling through BufferPool.  data() must always show the bytes put in.
+fn drive_buf(a: &Args, tr: &mut Tracer, per_subject: &mut serde_json::Map<String, Value>) {
+    let name = "buf:cache_buffer";
+    if !a.wants(name) {
+        return;
+    }
+    let rng0 = Rng::new(a.seed);
+    let (runs, steps) = if a.thorough() { (30, 60) } else { (8, 40) };
+    let mut c = Counts::default();
+    for run in 0..runs {
+        let mut rng = rng0.derive(&format!("{name}/{run}"));
+        tr.reset("buffer", name, json!({"fam":"buf","variant":"cache_buffer","seed":a.seed}));
+        c.runs += 1;
+        let pool = BufferPool::new(2);
+        let mut live: Vec<(usize, CacheBuffer)> = vec![];
+        let mut next = 1usize;
+        let mut dead = false;
+        // payload sizes around the growth steps of a Vec and the page size
+        let sizes = [0usize, 1, 7, 8, 9, 31, 32, 33, 64, 200, 1000, PAGE_SIZE];
+        for _ in 0..steps {
+            let x = rng.below(100);
+            let n = *rng.pick(&sizes);
+            let d = rng.bytes(n);
+            let r = guard(|| -> Value {
+                if live.is_empty() || x < 12 {
+                    let b = next;
+                    next += 1;
+                    return match x % 3 {
+                        0 => {
+                            live.push((b, CacheBuffer::new()));
+                            buf_obs("buf_new", b, None, &live.last().unwrap().1)
+                        }
+                        1 => {
+                            live.push((b, pool.get())); // a recycled buffer must be empty
+                            buf_obs("buf_new", b, None, &live.last().unwrap().1)
+                        }
+                        _ => {
+                            live.push((b, CacheBuffer::from_data(d.clone())));
+                            buf_obs("buf_from_data", b, Some(&d), &live.last().unwrap().1)
+                        }
+                    };
+                }
+                let i = rng.below(live.len() as u64) as usize;
+                let b = live[i].0;
+                match x {
+                    12..=29 => {
+                        live[i].1.copy_from_slice(&d);
+                        buf_obs("buf_copy", b, Some(&d), &live[i].1)
+                    }
+                    30..=54 => {
+                        live[i].1.extend_from_slice(&d);
+                        buf_obs("buf_extend", b, Some(&d), &live[i].1)
+                    }
+                    55..=62 => {
+                        live[i].1.clear();
+                        buf_obs("buf_clear", b, None, &live[i].1)
+                    }
+                    63..=76 => {
+                        // reserve far more than the buffer holds: the storage is reallocated
+                        live[i].1.reserve(*rng.pick(&[1usize, 64, 5000, 100_000]));
+                        buf_obs("buf_reserve", b, None, &live[i].1)
+                    }
+                    77..=88 => {
+                        // move the object (into a Box and back): the content must follow
+                        let (h, buf) = live.swap_remove(i);
+                        let boxed = Box::new(buf);
+                        live.push((h, *boxed));
+                        buf_obs("buf_move", h, None, &live.last().unwrap().1)
+                    }
+                    _ => {
+                        let (h, buf) = live.swap_remove(i);
+                        pool.put(buf);
+                        json!({"op":"pool_put","b":h})
+                    }
+                }
+            });
+            match r {
+                Ok(e) => {
+                    // a buffer that went through reserve() is observed once and then discarded: on the pinned tree
+                    // its data() may read freed memory (C17-KF8); nothing more is asked of it
+                    let drop_it = if e["op"] == "buf_reserve" { e["b"].as_u64() } else { None };
+                    tr.ev(e);
+                    c.events += 1;
+                    c.successes += 1;
+                    if let Some(h) = drop_it {
+                        if let Some(i) = live.iter().position(|x| x.0 as u64 == h) {
+                            drop(live.swap_remove(i));
+                            tr.ev(json!({"op":"buf_drop","b":h}));
+                            c.events += 1;
+                        }
+                    }
+                }
+                Err(m) => {
+                    tr.ev(json!({"op":"panic","in":"buffer","msg":m.chars().take(120).collect::<String>()}));
+                    c.panics += 1;
+                    dead = true;
+                }
+            }
+            if dead {
+                break;
+            }
+        }
+        if dead {
+            std::mem::forget(live);
+        }
+    }
+    per_subject.insert(name.to_string(), c.json());
+}
+
+// ================================================================ LRU maps driven by several caller threads
+
+thread_local! {
+    /// callbacks run on the thread whose call evicts: each thread collects its own
+    static MY_EVICTIONS: std::cell::RefCell<Vec<(u32, u32)>> = std::cell::RefCell::new(vec![]);
+}
+#[derive(Clone, Default)]
+struct ThreadRecorder;
+impl EvictionCallback<u32, u32> for ThreadRecorder {
+    fn on_evict(&self, k: &u32, v: &u32) {
+        MY_EVICTIONS.with(|e| e.borrow_mut().push((*k, *v)));
+    }
+}
+
+fn lin_subjects() -> Vec<String> {
+    ["lrumt:cb", "clrumt:hash_1", "clrumt:hash_2"].iter().map(|s| s.to_string()).collect()
+}
+
+/// Multi-threaded stress without schedule control: `threads` callers issue a few calls each on one shared
+/// map; every call is logged with an invocation and a response stamp from one global counter.  TLC
+/// (Trace_LruLin) searches a linearization of each run.
+fn drive_lin_one(a: &Args, name: &String, tr: &mut Tracer) -> Counts {
+    use std::sync::atomic::AtomicU64;
+    let rng0 = Rng::new(a.seed);
+    let (runs, per_thread) = if a.thorough() { (400, 7) } else { (60, 6) };
+    let threads = 3usize;
+    {
+        let (fam, var) = name.split_once(':').unwrap_or((name, ""));
+        let shards: usize = var.rsplit('_').next().and_then(|x| x.parse().ok()).unwrap_or(1);
+        let mut c = Counts::default();
+        let mut hung = false;
+        for cap in 1..=2usize {
+            for run in 0..runs {
+                let single: Option<Arc<LruMap<u32, u32, ThreadRecorder>>> = if fam == "lrumt" { LruMap::with_eviction_callback(cap, ThreadRecorder).ok().map(Arc::new) } else { None };
+                let conc: Option<Arc<ConcurrentLruMap<u32, u32, ThreadRecorder>>> = if fam == "clrumt" {
+                    let cfg = ConcurrentLruMapConfig { base_config: LruMapConfig { capacity: cap, ..Default::default() }, shard_count: shards, load_balancing: LoadBalancingStrategy::Hash };
+                    ConcurrentLruMap::with_config_and_callback(cfg, ThreadRecorder).ok().map(Arc::new)
+                } else {
+                    None
+                };
+                if single.is_none() && conc.is_none() {
+                    c.not_constructed += 1;
+                    continue;
+                }
+                let clock = Arc::new(AtomicU64::new(1));
+                let barrier = Arc::new(std::sync::Barrier::new(threads));
+                let uni = (shards * cap + 1) as u64;
+                // what the threads have completed, and the call each of them is in (a call that never returns is data)
+                let completed: Arc<Mutex<Vec<Value>>> = Arc::new(Mutex::new(vec![]));
+                let current: Arc<Mutex<Vec<Option<Value>>>> = Arc::new(Mutex::new(vec![None; threads]));
+                let (fin_tx, fin_rx) = mpsc::channel::<usize>();
+                for t in 0..threads {
+                    let (single, conc, clock, barrier) = (single.clone(), conc.clone(), Arc::clone(&clock), Arc::clone(&barrier));
+                    let (completed, current, fin_tx) = (Arc::clone(&completed), Arc::clone(&current), fin_tx.clone());
+                    let mut rng = rng0.derive(&format!("{name}/{cap}/{run}/{t}"));
+                    std::thread::spawn(move || {
+                        barrier.wait();
+                        for _ in 0..per_thread {
+                            let k = rng.below(uni) as u32;
+                            let v = rng.below(1000) as u32;
+                            let x = rng.below(100);
+                            let opname = match x {
+                                0..=49 => "put",
+                                50..=74 => "get",
+                                75..=84 => "remove",
+                                85..=94 => "contains",
+                                _ if shards == 1 => "len",
+                                _ => "contains",
+                            };
+                            let inv = clock.fetch_add(1, Ordering::SeqCst);
+                            current.lock().unwrap()[t] = Some(json!({"op":opname,"k":k,"v":v,"t":t,"inv":inv}));
+                            let r = guard(|| -> Value {
+                                macro_rules! on {
+                                    ($m:ident => $e:expr) => {
+                                        match (&single, &conc) {
+                                            (Some($m), _) => $e,
+                                            (_, Some($m)) => $e,
+                                            _ => unreachable!(),
+                                        }
+                                    };
+                                }
+                                match opname {
+                                    "put" => match on!(m => m.put(k, v).map_err(|_| ())) {
+                                        Ok(r) => json!({"op":"put","k":k,"v":v,"ok":true,"r":opt(r)}),
+                                        Err(()) => json!({"op":"put","k":k,"v":v,"ok":false,"r":[]}),
+                                    },
+                                    "get" => json!({"op":"get","k":k,"r":opt(on!(m => m.get(&k)))}),
+                                    "remove" => json!({"op":"remove","k":k,"r":opt(on!(m => m.remove(&k)))}),
+                                    "len" => json!({"op":"len","r":on!(m => m.len())}),
+                                    _ => json!({"op":"contains","k":k,"r":on!(m => m.contains_key(&k))}),
+                                }
+                            });
+                            let res = clock.fetch_add(1, Ordering::SeqCst);
+                            let mut e = match r {
+                                Ok(e) => e,
+                                Err(m) => json!({"op":"panic","in":"lin","msg":m.chars().take(120).collect::<String>()}),
+                            };
+                            e["t"] = json!(t);
+                            e["inv"] = json!(inv);
+                            e["res"] = json!(res);
+                            e["pending"] = json!(false);
+                            e["ev"] = pairs(&MY_EVICTIONS.with(|q| std::mem::take(&mut *q.borrow_mut())));
+                            current.lock().unwrap()[t] = None;
+                            completed.lock().unwrap().push(e);
+                        }
+                        let _ = fin_tx.send(t);
+                    });
+                }
+                // wait for the threads; "no call completed for 2 x 4 s while calls are in flight" = the callers hang
+                let mut finished = 0usize;
+                let mut stalled = 0;
+                let mut seen = 0usize;
+                while finished < threads && stalled < 2 {
+                    match fin_rx.recv_timeout(std::time::Duration::from_secs(4)) {
+                        Ok(_) => finished += 1,
+                        Err(_) => {
+                            let n = completed.lock().unwrap().len();
+                            if n == seen {
+                                stalled += 1;
+                            } else {
+                                stalled = 0;
+                                seen = n;
+                            }
+                        }
+                    }
+                }
+                let hang = finished < threads;
+                let mut all: Vec<Value> = completed.lock().unwrap().clone();
+                all.sort_by_key(|e| e["inv"].as_u64().unwrap_or(0));
+                if hang {
+                    // the calls that never returned: pending (they may or may not have taken effect), then the hang itself
+                    let cur = current.lock().unwrap().clone();
+                    let mut names = vec![];
+                    for mut e in cur.into_iter().flatten() {
+                        names.push(e["op"].clone());
+                        e["res"] = json!(1 << 30);
+                        e["pending"] = json!(true);
+                        e["ok"] = json!(true);
+                        e["r"] = json!([]);
+                        e["ev"] = json!([]);
+                        all.push(e);
+                    }
+                    all.push(json!({"op":"hang","stuck":names,"inv":(1 << 30) - 1,"res":1 << 30,"pending":false,"ev":[]}));
+                    c.panics += 1;
+                }
+                tr.reset("lrulin", name, json!({"fam":fam,"variant":var,"constructed":true,"cap":cap,"shards":shards,"has_cb":true,"threads":threads,
+                    "nops":all.len(),"seed":a.seed}));
+                c.runs += 1;
+                for e in all {
+                    if e["op"] == "put" && e["ok"] == json!(true) {
+                        c.successes += 1;
+                    }
+                    if e["ok"] == json!(false) {
+                        c.refused += 1;
+                    }
+                    c.evictions += e["ev"].as_array().map_or(0, |x| x.len());
+                    tr.ev(e);
+                    c.events += 1;
+                }
+                tr.flush();
+                if hang {
+                    hung = true;
+                    break; // the stuck threads stay behind (they own their map)
+                }
+            }
+            if hung && !a.thorough() {
+                break; // quick tier: one hang per subject is enough (each costs 8 s of waiting)
+            }
+        }
+        c
+    }
+}
+
 // ================================================================ B1 entry
 
 fn drive(a: &Args) {
@@ -1023,10 +1530,30 @@ fn drive(a: &Args) {
     t2.max_events = 700;
     drive_pc(a, &mut t2, &mut per_subject);
     drive_cs(a, &mut t2, &mut per_subject);
+    drive_buf(a, &mut t2, &mut per_subject);
     t2.close();
-    let files: Vec<String> = t1.files.iter().chain(t2.files.iter()).map(|p| p.display().to_string()).collect();
-    write_summary(&a.out, &json!({"mode":"drive","events":t1.total_events + t2.total_events,"runs":t1.runs + t2.runs,
-        "lru_events":t1.total_events,"pc_events":t2.total_events,"files":files,"subjects":per_subject}));
+    // the multi-threaded subjects run side by side (a hang costs seconds of waiting), one trace stem each
+    let lin: Vec<String> = lin_subjects().into_iter().filter(|s| a.wants(s)).collect();
+    let lin_results: Vec<(Counts, usize, usize, Vec<PathBuf>)> = std::thread::scope(|sc| {
+        let hs: Vec<_> = lin.iter().enumerate().map(|(i, name)| sc.spawn(move || {
+            let mut t = Tracer::new(&a.out, &format!("lin{i}"));
+            t.max_events = 1200;
+            let c = drive_lin_one(a, name, &mut t);
+            t.close();
+            (c, t.total_events, t.runs, t.files.clone())
+        })).collect();
+        hs.into_iter().map(|h| h.join().expect("lin driver")).collect()
+    });
+    let mut t3 = (0usize, 0usize, Vec::<PathBuf>::new());
+    for (name, (c, ev, ru, fl)) in lin.iter().zip(lin_results.into_iter()) {
+        per_subject.insert(name.clone(), c.json());
+        t3.0 += ev;
+        t3.1 += ru;
+        t3.2.extend(fl);
+    }
+    let files: Vec<String> = t1.files.iter().chain(t2.files.iter()).chain(t3.2.iter()).map(|p| p.display().to_string()).collect();
+    write_summary(&a.out, &json!({"mode":"drive","events":t1.total_events + t2.total_events + t3.0,"runs":t1.runs + t2.runs + t3.1,
+        "lru_events":t1.total_events,"pc_events":t2.total_events,"lin_events":t3.0,"files":files,"subjects":per_subject}));
 }
 
 // ================================================================ B2: TLC behaviours
@@ -1247,7 +1774,7 @@ fn main() {
         "drive" => drive(&a),
         "replay" => replay(&a),
         "subjects" => {
-            for s in lru_subjects().into_iter().chain(fsa_subjects()).chain(pc_subjects()).chain(cs_subjects()) {
+            for s in lru_subjects().into_iter().chain(fsa_subjects()).chain(pc_subjects()).chain(cs_subjects()).chain(lin_subjects()) {
                 println!("{s}");
             }
         }
